@@ -272,6 +272,10 @@ def judge_wrapper_real(order):
 
 
 def run(ctx):
+    from .. import pipeline
+
+    # wiring: the run's stored columns are this stage applied to the run's stored columns (see nssmc/pipeline.py)
+    pipeline.run_in(ctx, ['optical'], ('B', 'C'))
     tier = ctx.tier
     for order in ([525.0, 33.0, 1000.0, 36000.0], [33.0, 525.0], [36000.0, 400.0, 525.0]):
         ctx.tick(3 * len(order), ("wrapper_real", tuple(order)))
@@ -344,6 +348,10 @@ def run(ctx):
 
 
 def replay(case):
+    if isinstance(case, dict) and case.get("kind") == "pipeline":
+        from .. import pipeline
+
+        return pipeline.replay(case)
     k = case["kind"]
     if k == "wrap":
         return judge_wrapper(case["area"], case["qe"], case["thr"], [tuple(e) for e in case["events"]])
